@@ -493,6 +493,11 @@ func cellCollectIsSorted(fn *ssa.Function, cell *ssa.Alloc, region map[*ssa.Basi
 	}
 	r := ir.NewReach(fn)
 	for _, s := range sorts {
+		if ci, ok := s.(ssa.CallInstruction); ok {
+			if bad, why := SortComparatorBad(ci); bad {
+				return false, fmt.Sprintf("the sort at line %d does not order it: %s", fn.Prog.Fset.Position(s.Pos()).Line, why)
+			}
+		}
 		r.Barrier[s] = true
 	}
 	r.RunFromBlock(lp.Header)
@@ -556,6 +561,11 @@ func collectIsSorted(fn *ssa.Function, phi *ssa.Phi, region map[*ssa.BasicBlock]
 		return false, fmt.Sprintf("is used without being sorted (%d use(s), first at line %d)", len(others), fn.Prog.Fset.Position(others[0].Pos()).Line)
 	}
 	for _, s := range sorts {
+		if ci, ok := s.(ssa.CallInstruction); ok {
+			if bad, why := SortComparatorBad(ci); bad {
+				return false, fmt.Sprintf("the sort at line %d does not order it: %s", fn.Prog.Fset.Position(s.Pos()).Line, why)
+			}
+		}
 		r.Barrier[s] = true
 	}
 	r.RunFromBlock(lp.Header)
